@@ -202,6 +202,8 @@ theorem FmInv_pitch {α} (A : Arith α) (st st' : State) (id : Nat) (tag : List 
     · exact hinv
   · simp only at h
     split at h
+    · cases h
+    split at h
     · split at h
       · cases h
       · split at h
@@ -209,10 +211,12 @@ theorem FmInv_pitch {α} (A : Arith α) (st st' : State) (id : Nat) (tag : List 
         · exact key _ _ _ h
     · cases h
     · cases h
+    · cases h
     · split at h
       · split at h
         · cases h
         · exact key _ _ _ h
+      · cases h
       · cases h
       · cases h
 
